@@ -186,11 +186,17 @@ Lemma explained_def R H id pre cls body :
   explained R H (PDef id pre cls body) =
   ((exists n kids, R id = Some n /\ H n = Some (mkObj cls id kids) /\ Forall2 (slot_ok R) body kids) /\
    explained_body R H body).
-Proof. reflexivity. Qed.
+Proof.
+  simpl. f_equal. induction body as [| [k c] r IH]; [reflexivity |].
+  simpl. rewrite IH. reflexivity.
+Qed.
 Lemma occurs_def id cls body id' pre cls' body' :
   occurs id cls body (PDef id' pre cls' body') =
   ((id' = id /\ cls' = cls /\ body' = body) \/ occurs_body id cls body body').
-Proof. reflexivity. Qed.
+Proof.
+  simpl. f_equal. induction body' as [| [k c] r IH]; [reflexivity |].
+  simpl. rewrite IH. reflexivity.
+Qed.
 
 Lemma exec_def b id pre cls body st :
   exec b (PDef id pre cls body) st =
@@ -275,7 +281,7 @@ Proof.
     rewrite defs_def, scoped_def. unfold dom at 1. simpl. fold (dom st1).
     rewrite rev_app_distr. simpl. rewrite D1. repeat split; auto.
     intros Hb ND. subst b. simpl in B1. apply bound_false in B1. fold (dom st1) in B1.
-    rewrite <- D1. constructor; auto.
+    unfold dom at 1. simpl. fold (dom st1). constructor; auto.
 Qed.
 
 Lemma exec_all_inv1 b : forall ps st st', exec_all b ps st = Ok tt st' ->
@@ -314,4 +320,428 @@ Lemma dangling_rejected_l : forall b ps,
 Proof.
   intros b ps H. destruct (res_cases (exec_all b ps st0)) as [(a & st & E) | X]; auto.
   destruct a. exfalso. apply H. eapply accepted_wellformed_l; eauto.
+Qed.
+
+(* ------------------------------------------------- completeness: well-formed => accepted *)
+
+Lemma NoDup_app_tail {A} (l l' : list A) : NoDup (l ++ l') -> NoDup l'.
+Proof. induction l as [| x r IH]; simpl; auto. intros H. inversion H; auto. Qed.
+
+Lemma all_inv1 b (body : list (string * prog)) : Forall (fun kc => inv1 b (snd kc)) body.
+Proof. apply Forall_forall. intros. apply exec_inv1. Qed.
+
+Definition inv2 (b : bool) (p : prog) : Prop :=
+  forall st, scoped (dom st) p -> NoDup (rev (defs p) ++ dom st) -> exists n st', exec b p st = Ok n st'.
+
+Lemma run_body_inv2 b body :
+  Forall (fun kc => inv2 b (snd kc)) body ->
+  forall st acc, scoped_body (dom st) body -> NoDup (rev (defs_body body) ++ dom st) ->
+    exists kids st', run_body (exec b) body st acc = Ok kids st'.
+Proof.
+  induction 1 as [| [k c] r Hc Hr IH]; intros st acc S N; simpl.
+  - eauto.
+  - simpl in S, N. destruct S as [Sc Sr].
+    rewrite rev_app_distr, <- app_assoc in N.
+    destruct (Hc st Sc) as (n & st1 & E). { eapply NoDup_app_tail; eauto. }
+    simpl in E.
+    rewrite E. destruct (exec_inv1 b c _ _ _ E) as (D1 & _ & _). simpl in D1.
+    apply IH; rewrite D1; auto.
+Qed.
+
+Lemma exec_inv2 b : forall p, inv2 b p.
+Proof.
+  induction p as [s | s | e | id pre cls body IH] using prog_ind'; intros st S N.
+  - simpl in *. destruct (in_lookup _ _ S) as [n E]. rewrite E. eauto.
+  - simpl in *. destruct (in_lookup _ _ S) as [n E]. rewrite E. eauto.
+  - simpl in S. tauto.
+  - rewrite scoped_def in S. destruct S as [P S]. subst pre.
+    rewrite defs_def, rev_app_distr in N. simpl in N. inversion N as [| ? ? Nid N']; subst.
+    rewrite exec_def.
+    assert (bound id (st_reg st) = false) as B0.
+    { apply bound_false. intros I. apply Nid. apply in_or_app. right. exact I. }
+    rewrite B0.
+    destruct (run_body_inv2 b body IH st [] S N') as (kids & st1 & E). rewrite E. simpl.
+    destruct (run_body_inv1 b body (all_inv1 b body) _ _ _ _ E) as (D1 & _ & _).
+    assert (bound id (st_reg st1) = false) as B1.
+    { apply bound_false. fold (dom st1). rewrite D1. exact Nid. }
+    rewrite B1, andb_false_r. eauto.
+Qed.
+
+Lemma wellformed_accepted_l : forall b ps,
+  scoped_all [] ps -> NoDup (defs_all ps) -> exists st, exec_all b ps st0 = Ok tt st.
+Proof.
+  intros b ps. change (@nil string) with (dom st0).
+  assert (forall ps st, scoped_all (dom st) ps -> NoDup (rev (defs_all ps) ++ dom st) ->
+                        exists st', exec_all b ps st = Ok tt st') as G.
+  { clear ps. induction ps as [| p r IH]; intros st S N; simpl.
+    - eauto.
+    - simpl in S. destruct S as [Sp Sr]. unfold defs_all in N. simpl in N.
+      rewrite rev_app_distr, <- app_assoc in N.
+      destruct (exec_inv2 b p st Sp) as (n & st1 & E). { eapply NoDup_app_tail; eauto. }
+      rewrite E. destruct (exec_inv1 b p _ _ _ E) as (D1 & _ & _).
+      apply IH; rewrite D1; auto. }
+  intros S N. apply G; auto. simpl. rewrite app_nil_r. apply NoDup_rev. exact N.
+Qed.
+
+(* --------------------------------------------- one id, one identity: the final registry *)
+
+Definition Rof (st : state) : string -> option nat := fun s => lookup s (st_reg st).
+Definition Hof (st : state) : nat -> option obj := fun n => hget n (st_heap st).
+
+Definition good (st : state) : Prop :=
+  (forall m o, Hof st m = Some o -> m < st_next st) /\
+  (forall s m, Rof st s = Some m -> m < st_next st) /\
+  (forall a b m, Rof st a = Some m -> Rof st b = Some m -> a = b).
+
+Definition sext (st st' : state) : Prop :=
+  (forall s m, Rof st s = Some m -> Rof st' s = Some m) /\
+  (forall n o, Hof st n = Some o -> Hof st' n = Some o).
+
+Lemma sext_refl st : sext st st.
+Proof. split; auto. Qed.
+Lemma sext_trans a b c : sext a b -> sext b c -> sext a c.
+Proof. intros [A1 A2] [B1 B2]. split; auto. Qed.
+
+Lemma denote_mono (R R' : string -> option nat) p n :
+  (forall s m, R s = Some m -> R' s = Some m) -> denote R p = Some n -> denote R' p = Some n.
+Proof. intros M. destruct p; simpl; auto. Qed.
+
+Lemma slots_mono (R R' : string -> option nat) body kids :
+  (forall s m, R s = Some m -> R' s = Some m) ->
+  Forall2 (slot_ok R) body kids -> Forall2 (slot_ok R') body kids.
+Proof.
+  intros M. induction 1 as [| kc kn b k [A B] _ IH]; constructor; auto.
+  split; auto. eapply denote_mono; eauto.
+Qed.
+
+Lemma explained_mono (R R' : string -> option nat) (H H' : nat -> option obj) :
+  (forall s m, R s = Some m -> R' s = Some m) -> (forall n o, H n = Some o -> H' n = Some o) ->
+  forall p, explained R H p -> explained R' H' p.
+Proof.
+  intros MR MH. induction p as [s | s | e | id pre cls body IH] using prog_ind'; auto.
+  rewrite !explained_def. intros [(n & kids & A & B & C) D]. split.
+  - exists n, kids. repeat split; auto. eapply slots_mono; eauto.
+  - clear A B C. induction IH as [| [k c] r Hc Hr IHr]; simpl in *; auto.
+    destruct D as [D1 D2]. split; auto.
+Qed.
+
+Lemma explained_body_mono (R R' : string -> option nat) (H H' : nat -> option obj) :
+  (forall s m, R s = Some m -> R' s = Some m) -> (forall n o, H n = Some o -> H' n = Some o) ->
+  forall b, explained_body R H b -> explained_body R' H' b.
+Proof.
+  intros MR MH. induction b as [| [k c] r IH]; simpl; auto.
+  intros [A B]. split; auto. eapply explained_mono; eauto.
+Qed.
+
+Definition inv3 (p : prog) : Prop :=
+  forall st n st', exec true p st = Ok n st' -> good st ->
+    good st' /\ sext st st' /\ denote (Rof st') p = Some n /\ explained (Rof st') (Hof st') p.
+
+Lemma run_body_inv3 body :
+  Forall (fun kc => inv3 (snd kc)) body ->
+  forall st acc kids st', run_body (exec true) body st acc = Ok kids st' -> good st ->
+    good st' /\ sext st st' /\
+    exists new, kids = rev acc ++ new /\ Forall2 (slot_ok (Rof st')) body new /\
+                explained_body (Rof st') (Hof st') body.
+Proof.
+  induction 1 as [| [k c] r Hc Hr IH]; intros st acc kids st' E G; simpl in E.
+  - inversion E; subst. split; [exact G | split; [apply sext_refl |]].
+    exists []. rewrite app_nil_r. split; [reflexivity | split; [constructor | exact I]].
+  - destruct (exec true c st) as [n st1 | e ch] eqn:Ec; [| discriminate].
+    destruct (Hc _ _ _ Ec G) as (G1 & X1 & Dn & Ex). simpl in Dn, Ex.
+    destruct (IH _ _ _ _ E G1) as (G2 & X2 & new & K & F & Eb).
+    split; auto. split; [eapply sext_trans; eauto |].
+    destruct X2 as [XR XH].
+    exists ((k, n) :: new). split; [| split].
+    + rewrite K. simpl. rewrite <- app_assoc. reflexivity.
+    + constructor; auto. split; auto. simpl. eapply denote_mono; eauto.
+    + simpl. split; auto. eapply explained_mono; eauto.
+Qed.
+
+Lemma exec_inv3 : forall p, inv3 p.
+Proof.
+  induction p as [s | s | e | id pre cls body IH] using prog_ind'; intros st n st' E G.
+  - simpl in E. destruct (lookup s (st_reg st)) eqn:L; inversion E; subst.
+    split; [exact G | split; [apply sext_refl | split; [exact L | exact I]]].
+  - simpl in E. destruct (lookup s (st_reg st)) eqn:L; inversion E; subst.
+    split; [exact G | split; [apply sext_refl | split; [exact L | exact I]]].
+  - simpl in E. discriminate.
+  - rewrite exec_def in E.
+    destruct (bound id (st_reg st)) eqn:B0; [discriminate |].
+    destruct pre as [e |]; [discriminate |].
+    destruct (wrap cls id (run_body (exec true) body st [])) as [kids st1 | e ch] eqn:W; [| discriminate].
+    apply wrap_ok in W.
+    destruct (run_body_inv3 body IH _ _ _ _ W G) as (G1 & X1 & new & K & F & Eb).
+    simpl in K. subst new.
+    destruct (bound id (st_reg st1)) eqn:B1; [discriminate |]. simpl in E.
+    inversion E; subst; clear E.
+    set (n := st_next st1).
+    set (st' := {| st_next := S n; st_reg := (id, n) :: st_reg st1;
+                   st_heap := (n, {| o_cls := cls; o_id := id; o_kids := kids |}) :: st_heap st1 |}).
+    destruct G1 as (GH & GR & GI).
+    assert (forall s m, Rof st1 s = Some m -> Rof st' s = Some m) as XR.
+    { intros s m L. unfold Rof, st'. simpl. destruct (String.eqb_spec s id); auto.
+      subst s. unfold bound in B1. unfold Rof in L. rewrite L in B1. discriminate. }
+    assert (forall m o, Hof st1 m = Some o -> Hof st' m = Some o) as XH.
+    { intros m o L. unfold Hof, st'. simpl. destruct (Nat.eqb_spec m n); auto.
+      subst m. apply GH in L. unfold n in L. lia. }
+    assert (Rof st' id = Some n) as Rid.
+    { unfold Rof, st'. simpl. rewrite String.eqb_refl. reflexivity. }
+    split; [| split; [| split]].
+    + split; [| split].
+      * intros m o L. unfold Hof, st' in L. simpl in L. destruct (Nat.eqb_spec m n).
+        -- subst. simpl. lia.
+        -- apply GH in L. simpl. fold n in L. lia.
+      * intros s m L. unfold Rof, st' in L. simpl in L. destruct (String.eqb_spec s id).
+        -- inversion L; subst. simpl. lia.
+        -- apply GR in L. simpl. fold n in L. lia.
+      * intros a b m La Lb. unfold Rof, st' in La, Lb. simpl in La, Lb.
+        destruct (String.eqb_spec a id) as [Ea | Ea]; destruct (String.eqb_spec b id) as [Eb' | Eb']; subst; auto.
+        -- inversion La; subst. apply GR in Lb. fold n in Lb. lia.
+        -- inversion Lb; subst. apply GR in La. fold n in La. lia.
+        -- eapply GI; eauto.
+    + eapply sext_trans; [exact X1 | split; auto].
+    + exact Rid.
+    + rewrite explained_def. split.
+      * exists n, kids. split; [exact Rid | split].
+        -- unfold Hof, st'. simpl. rewrite Nat.eqb_refl. reflexivity.
+        -- eapply slots_mono; eauto.
+      * eapply explained_body_mono; eauto.
+Qed.
+
+Lemma good0 : good st0.
+Proof. repeat split; unfold Hof, Rof; simpl; intros; discriminate. Qed.
+
+Lemma exec_all_inv3 : forall ps st st', exec_all true ps st = Ok tt st' -> good st ->
+  good st' /\ sext st st' /\ Forall (explained (Rof st') (Hof st')) ps.
+Proof.
+  induction ps as [| p r IH]; intros st st' E G; simpl in E.
+  - inversion E; subst. split; [exact G | split; [apply sext_refl | constructor]].
+  - destruct (exec true p st) as [n st1 | e ch] eqn:Ep; [| discriminate].
+    destruct (exec_inv3 p _ _ _ Ep G) as (G1 & X1 & _ & Ex).
+    destruct (IH _ _ E G1) as (G2 & X2 & F).
+    split; auto. split; [eapply sext_trans; eauto |].
+    constructor; auto. destruct X2. eapply explained_mono; eauto.
+Qed.
+
+(* every occurrence of an id — defining dict or string reference, in any holder — is the one
+   identity the final registry binds to it; distinct ids are distinct objects *)
+Lemma refs_share_identity_l : forall ps st,
+  exec_all true ps st0 = Ok tt st ->
+  Forall (explained (Rof st) (Hof st)) ps /\
+  (forall a b n, Rof st a = Some n -> Rof st b = Some n -> a = b).
+Proof.
+  intros ps st E. destruct (exec_all_inv3 ps _ _ E good0) as (G & _ & F). split; auto. apply G.
+Qed.
+
+(* ----------------------------------------------- an update is seen through every holder *)
+
+Lemma explained_occurs R H id cls body : forall p,
+  explained R H p -> occurs id cls body p ->
+  exists n kids, R id = Some n /\ H n = Some (mkObj cls id kids) /\ Forall2 (slot_ok R) body kids.
+Proof.
+  induction p as [s | s | e | id' pre cls' body' IH] using prog_ind'; [simpl; tauto | simpl; tauto | simpl; tauto |].
+  rewrite explained_def, occurs_def. intros [A B] [(E1 & E2 & E3) | O].
+  - subst. exact A.
+  - clear A. induction IH as [| [k c] r Hc Hr IHr]; simpl in *; [tauto |].
+    destruct B as [B1 B2]. destruct O as [O | O]; auto.
+Qed.
+
+Lemma slot_lookup R body kids k c :
+  Forall2 (slot_ok R) body kids -> pget k body = Some c ->
+  exists m, kid k kids = Some m /\ denote R c = Some m.
+Proof.
+  induction 1 as [| [k1 c1] [k2 m2] b ks [A B] _ IH]; simpl; [discriminate |].
+  simpl in A, B. subst k2. destruct (String.eqb k k1).
+  - intros E. inversion E; subst. eauto.
+  - exact IH.
+Qed.
+
+Lemma denote_mention R c s : mention c = Some s -> denote R c = R s.
+Proof. destruct c; simpl; intros E; inversion E; subst; auto. Qed.
+
+Lemma update_seen_l : forall ps st,
+  exec_all true ps st0 = Ok tt st ->
+  forall h cls body k c s n,
+    Exists (occurs h cls body) ps -> pget k body = Some c -> mention c = Some s ->
+    lookup s (st_reg st) = Some n ->
+    forall (V : Type) (sigma : nat -> option V) (v : V), sees st (upd sigma n v) h k = Some v.
+Proof.
+  intros ps st E h cls body k c s n O P M L V sigma v.
+  destruct (refs_share_identity_l ps st E) as [F _].
+  apply Exists_exists in O. destruct O as (p & Ip & Op).
+  rewrite Forall_forall in F. specialize (F p Ip).
+  destruct (explained_occurs _ _ _ _ _ _ F Op) as (nh & kids & A & B & C).
+  destruct (slot_lookup _ _ _ _ _ C P) as (m & Km & Dm).
+  rewrite (denote_mention _ _ _ M) in Dm. unfold Rof in Dm. rewrite L in Dm. inversion Dm; subst m.
+  unfold sees. unfold Rof in A. rewrite A. unfold Hof in B. rewrite B. simpl. rewrite Km.
+  unfold upd. rewrite Nat.eqb_refl. reflexivity.
+Qed.
+
+(* ... and through no holder of a different id *)
+Lemma update_frame_l : forall ps st,
+  exec_all true ps st0 = Ok tt st ->
+  forall h cls body k c s s' n,
+    Exists (occurs h cls body) ps -> pget k body = Some c -> mention c = Some s' -> s' <> s ->
+    lookup s (st_reg st) = Some n ->
+    forall (V : Type) (sigma : nat -> option V) (v : V),
+      sees st (upd sigma n v) h k = sees st sigma h k.
+Proof.
+  intros ps st E h cls body k c s s' n O P M NE L V sigma v.
+  destruct (refs_share_identity_l ps st E) as [F Inj].
+  apply Exists_exists in O. destruct O as (p & Ip & Op).
+  rewrite Forall_forall in F. specialize (F p Ip).
+  destruct (explained_occurs _ _ _ _ _ _ F Op) as (nh & kids & A & B & C).
+  destruct (slot_lookup _ _ _ _ _ C P) as (m & Km & Dm).
+  rewrite (denote_mention _ _ _ M) in Dm.
+  unfold sees. unfold Rof in A. rewrite A. unfold Hof in B. rewrite B. simpl. rewrite Km.
+  unfold upd. destruct (Nat.eqb_spec m n); auto. subst m. exfalso. apply NE. eapply Inj; eauto.
+Qed.
+
+(* --------------------------------------------------------- the code as it stands (recheck=false) *)
+
+Lemma run_body_recheck body :
+  Forall (fun kc => forall st n st', exec true (snd kc) st = Ok n st' -> exec false (snd kc) st = Ok n st') body ->
+  forall st acc kids st', run_body (exec true) body st acc = Ok kids st' ->
+                          run_body (exec false) body st acc = Ok kids st'.
+Proof.
+  induction 1 as [| [k c] r Hc Hr IH]; intros st acc kids st' E; simpl in *; auto.
+  destruct (exec true c st) as [n st1 | e ch] eqn:Ec; [| discriminate].
+  rewrite (Hc _ _ _ Ec). auto.
+Qed.
+
+(* whatever the corrected loader accepts, the current one accepts with the same result *)
+Lemma recheck_only_rejects_l : forall p st n st',
+  exec true p st = Ok n st' -> exec false p st = Ok n st'.
+Proof.
+  induction p as [s | s | e | id pre cls body IH] using prog_ind'; intros st n st' E; auto.
+  rewrite exec_def in *.
+  destruct (bound id (st_reg st)); [discriminate |].
+  destruct pre; [discriminate |].
+  destruct (wrap cls id (run_body (exec true) body st [])) as [kids st1 | e ch] eqn:W; [| discriminate].
+  apply wrap_ok in W. rewrite (run_body_recheck body IH _ _ _ _ W). simpl.
+  destruct (bound id (st_reg st1)); [discriminate |]. exact E.
+Qed.
+
+Lemma recheck_only_rejects_all_l : forall ps st st',
+  exec_all true ps st = Ok tt st' -> exec_all false ps st = Ok tt st'.
+Proof.
+  induction ps as [| p r IH]; intros st st' E; simpl in *; auto.
+  destruct (exec true p st) as [n st1 | e ch] eqn:Ep; [| discriminate].
+  rewrite (recheck_only_rejects_l _ _ _ _ Ep). auto.
+Qed.
+
+Lemma nested_free_def id pre cls body :
+  nested_free (PDef id pre cls body) = (~ In id (defs_body body) /\ nested_free_body body).
+Proof. reflexivity. Qed.
+
+(* what does hold of the code as it stands: duplicates are caught unless nested in their own definition *)
+Definition inv4 (p : prog) : Prop :=
+  forall st n st', exec false p st = Ok n st' -> nested_free p -> NoDup (dom st) -> NoDup (dom st').
+
+Lemma run_body_inv4 body :
+  Forall (fun kc => inv4 (snd kc)) body ->
+  forall st acc kids st', run_body (exec false) body st acc = Ok kids st' ->
+    nested_free_body body -> NoDup (dom st) -> NoDup (dom st').
+Proof.
+  induction 1 as [| [k c] r Hc Hr IH]; intros st acc kids st' E NF ND; simpl in E.
+  - inversion E; subst. auto.
+  - destruct (exec false c st) as [n st1 | e ch] eqn:Ec; [| discriminate].
+    simpl in NF. destruct NF as [NF1 NF2]. eapply IH; [exact E | exact NF2 |].
+    eapply Hc; [exact Ec | exact NF1 | exact ND].
+Qed.
+
+Lemma exec_inv4 : forall p, inv4 p.
+Proof.
+  induction p as [s | s | e | id pre cls body IH] using prog_ind'; intros st n st' E NF ND.
+  - simpl in E. destruct (lookup s (st_reg st)); inversion E; subst; auto.
+  - simpl in E. destruct (lookup s (st_reg st)); inversion E; subst; auto.
+  - simpl in E. discriminate.
+  - rewrite exec_def in E. rewrite nested_free_def in NF. destruct NF as [NI NF].
+    destruct (bound id (st_reg st)) eqn:B0; [discriminate |].
+    destruct pre as [e |]; [discriminate |].
+    destruct (wrap cls id (run_body (exec false) body st [])) as [kids st1 | e ch] eqn:W; [| discriminate].
+    apply wrap_ok in W. simpl in E. inversion E; subst; clear E.
+    pose proof (run_body_inv4 body IH _ _ _ _ W NF ND) as N1.
+    destruct (run_body_inv1 false body (all_inv1 false body) _ _ _ _ W) as (D1 & _ & _).
+    unfold dom. simpl. fold (dom st1). constructor; auto.
+    rewrite D1. intros I. apply in_app_or in I. destruct I as [I | I].
+    + apply NI. apply in_rev. exact I.
+    + apply bound_false in B0. apply B0. exact I.
+Qed.
+
+Lemma duplicate_rejected_unless_nested_l : forall ps,
+  Forall nested_free ps -> ~ NoDup (defs_all ps) -> exists e ch, exec_all false ps st0 = Err e ch.
+Proof.
+  intros ps NF H. destruct (res_cases (exec_all false ps st0)) as [(a & st & E) | X]; auto.
+  exfalso. apply H. destruct a.
+  assert (forall ps st st', exec_all false ps st = Ok tt st' -> Forall nested_free ps ->
+                            NoDup (dom st) -> NoDup (dom st')) as G.
+  { clear. induction ps as [| p r IH]; intros st st' E NF ND; simpl in E.
+    - inversion E; subst; auto.
+    - destruct (exec false p st) as [n st1 | e ch] eqn:Ep; [| discriminate].
+      inversion NF; subst. eapply IH; eauto. eapply exec_inv4; eauto. }
+  specialize (G ps st0 st E NF (NoDup_nil _)).
+  destruct (exec_all_inv1 false ps _ _ E) as (D & _ & _). rewrite D in G. simpl in G.
+  rewrite app_nil_r in G. apply NoDup_rev in G. rewrite rev_involutive in G. exact G.
+Qed.
+
+(* ------------------------------------------------- rejections are parse errors *)
+
+Definition perr (inside : bool) (e : err) : Prop :=
+  parse_error e = true \/ (inside = true /\ exists k, e = EKeyError k).
+
+Lemma only_parse_def inside id pre cls body :
+  only_parse inside (PDef id pre cls body) =
+  (match pre with None => True | Some e => parse_error e = true end /\ only_parse_body body).
+Proof. reflexivity. Qed.
+
+Lemma run_body_perr b body :
+  Forall (fun kc => forall st e ch, exec b (snd kc) st = Err e ch -> only_parse true (snd kc) -> perr true e) body ->
+  forall st acc e ch, run_body (exec b) body st acc = Err e ch -> only_parse_body body -> perr true e.
+Proof.
+  induction 1 as [| [k c] r Hc Hr IH]; intros st acc e ch E OP; simpl in E; [discriminate |].
+  simpl in OP. destruct OP as [O1 O2].
+  destruct (exec b c st) as [n st1 | e1 ch1] eqn:Ec.
+  - eapply IH; eauto.
+  - inversion E; subst. eapply Hc; eauto.
+Qed.
+
+Lemma wrap_perr {A} cls id (r : res A) e ch e0 ch0 :
+  r = Err e0 ch0 -> perr true e0 -> wrap cls id r = Err e ch -> parse_error e = true.
+Proof.
+  intros -> [P | (_ & k & ->)]; simpl.
+  - destruct e0; simpl in P; try discriminate; simpl; intros E; inversion E; subst; reflexivity.
+  - destruct (String.eqb k "id"); intros E; inversion E; subst; reflexivity.
+Qed.
+
+Lemma exec_perr b : forall p inside st e ch,
+  exec b p st = Err e ch -> only_parse inside p -> perr inside e.
+Proof.
+  induction p as [s | s | e0 | id pre cls body IH] using prog_ind'; intros inside st e ch E OP.
+  - simpl in E. destruct (lookup s (st_reg st)); inversion E; subst. left. reflexivity.
+  - simpl in E, OP. destruct (lookup s (st_reg st)); inversion E; subst. right. eauto.
+  - simpl in E, OP. inversion E; subst. exact OP.
+  - rewrite exec_def in E. rewrite only_parse_def in OP. destruct OP as [OP1 OP2]. left.
+    destruct (bound id (st_reg st)); [inversion E; subst; reflexivity |].
+    destruct pre as [e1 |]; [inversion E; subst; exact OP1 |].
+    destruct (run_body (exec b) body st []) as [kids st1 | e1 ch1] eqn:R.
+    + simpl in E. destruct (b && bound id (st_reg st1)); inversion E; subst. reflexivity.
+    + assert (perr true e1) as P1.
+      { eapply (run_body_perr b body); [| exact R | exact OP2].
+        eapply Forall_impl; [| exact IH].
+        intros [k c] Hc st' e' ch' E' O'. eapply Hc; eauto. }
+      destruct (wrap cls id (Err e1 ch1)) as [? ? | e2 ch2] eqn:W.
+      * apply wrap_ok in W. discriminate.
+      * inversion E; subst. eapply wrap_perr; eauto.
+Qed.
+
+Lemma rejection_is_parse_error_l : forall b ps st e ch,
+  exec_all b ps st = Err e ch -> Forall (only_parse false) ps -> parse_error e = true.
+Proof.
+  induction ps as [| p r IH]; intros st e ch E OP; simpl in E; [discriminate |].
+  inversion OP; subst.
+  destruct (exec b p st) as [n st1 | e1 ch1] eqn:Ep.
+  - eapply IH; eauto.
+  - inversion E; subst. destruct (exec_perr b p false st e ch Ep) as [P | (X & _)]; auto. discriminate.
 Qed.
